@@ -123,7 +123,7 @@ Proof.
     rewrite (mime_ok v Hf). cbn [bind]. eauto. }
   destruct Hskip as [sk Hsk]. rewrite Hsk. cbn [bind].
   destruct sk; [eauto|].
-  destruct (disable_assets c && negb (domains_crawl c)); [eauto|].
+  destruct (disable_assets c && negb (domains_crawl c) && (v_hops v >=? max_hops c)); [eauto|].
   destruct (code =? 200); [|eauto].
   assert (Ha : exists ra, (if should_extract_assets c v then extract_assets v p x else Ok (Some (0, 0))) = Ok ra).
   { unfold should_extract_assets. destruct (negb (disable_assets c)); cbn [andb]; [|eauto].
